@@ -2,14 +2,16 @@ module verifharness
 
 go 1.20
 
-require github.com/panjf2000/gnet/v2 v2.0.0
+require (
+	github.com/panjf2000/gnet/v2 v2.0.0
+	golang.org/x/sys v0.30.0
+)
 
 require (
 	github.com/panjf2000/ants/v2 v2.12.1 // indirect
 	go.uber.org/multierr v1.11.0 // indirect
 	go.uber.org/zap v1.28.0 // indirect
 	golang.org/x/sync v0.11.0 // indirect
-	golang.org/x/sys v0.30.0 // indirect
 	gopkg.in/natefinch/lumberjack.v2 v2.2.1 // indirect
 )
 
